@@ -28,6 +28,7 @@ type Server struct {
 	Packets []*refproto.ClientPacket
 	Script  []Step
 	pos     int
+	sunk    int // after a parse error: bytes drained without understanding them
 	tried   int // stream length at which the last parse attempt needed more bytes
 	// Auto, when set, is called for every parsed client packet after the
 	// script is exhausted (auto-responder for pools).
@@ -44,7 +45,10 @@ func NewServer(rev int, script []Step) *Server {
 
 func (s *Server) canParse(c *Conn) bool {
 	n := c.OutLen()
-	return s.Parser.Err == nil && n > s.Parser.Pos && n != s.tried
+	if s.Parser.Err != nil {
+		return n > s.sunk // keeps draining what it cannot understand
+	}
+	return n > s.Parser.Pos && n != s.tried
 }
 
 func (s *Server) stepReady(c *Conn) bool {
@@ -96,9 +100,20 @@ func (s *Server) Step(c *Conn) {
 	}
 	out := c.OutCopy()
 	c.ConsumeTo(len(out)) // the server process reads bytes as they arrive
+	if s.Parser.Err != nil {
+		s.sunk = len(out)
+		return
+	}
 	pkt, err := s.Parser.Next(out)
 	if err != nil {
+		// like a real server: report the malformed input and hang up
 		c.Sim.Note("srv", "parse-error")
+		s.sunk = len(out)
+		var w refproto.W
+		refproto.EncodeException(&w, []refproto.Exception{{Code: 33, Name: "DB::Exception", Message: "DB::Exception: reference server cannot parse the client stream: " + err.Error()}})
+		c.Enqueue(w.B)
+		c.EndStream(false)
+		s.pos = len(s.Script)
 		return
 	}
 	if pkt == nil {
